@@ -148,7 +148,7 @@ func runCheck(o checkOpts) *checkResult {
 	var funcs []string
 	for _, k := range w.db.Order {
 		fc := w.db.Funcs[k]
-		if fc.Extern || fc.Trusted || strings.HasPrefix(k, "field:") || !fc.hasTag(o.prop) {
+		if fc.Extern || fc.Trusted || strings.HasPrefix(k, "field:") || !(fc.hasTag(o.prop) || fc.hasTag(o.prop+"!")) {
 			continue
 		}
 		funcs = append(funcs, k)
@@ -157,6 +157,12 @@ func runCheck(o checkOpts) *checkResult {
 	// access that needs a proof is visited, with or without a contract; for
 	// those not tagged with the property only the ownership obligations count.
 	onlyLabelled := map[string]bool{}
+	for _, k := range funcs {
+		// tag `C15!`: only the clauses labelled with the property count for it
+		if fc := w.db.Funcs[k]; fc != nil && !fc.hasTag(o.prop) && fc.hasTag(o.prop+"!") {
+			onlyLabelled[k] = true
+		}
+	}
 	if len(w.db.Owners) > 0 && ownersProp(w) == o.prop {
 		have := map[string]bool{}
 		for _, k := range funcs {
@@ -404,9 +410,6 @@ func runCheck(o checkOpts) *checkResult {
 }
 
 func levelOf(prop string) string {
-	if prop == "C11" {
-		return "other"
-	}
 	return "proof"
 }
 
@@ -500,7 +503,7 @@ func loadLemmas(dir, prop string) []*Obligation {
 				continue
 			}
 			o := &Obligation{Name: "lemma:" + strings.TrimSuffix(en.Name(), ".check.smt2") + "#" + name, Func: "spec", Kind: "lemma", Mode: mode}
-			o.lemmaText = header + body
+			o.lemmaText = specText[mode] + header + body
 			o.lemmaExpect = expect
 			out = append(out, o)
 		}
